@@ -118,6 +118,7 @@ LDB = "<=%d files (AC raw, compressed CAS with size in the name, legacy .v1 CAS)
 h("VerifLoad2", D, LD, LDB % 2, "start-up succeeds; survivors = the most recently accessed files that fit (files larger than max_size dropped and deleted); accounting and recency order match", unwind=24, switches=-1)
 h("VerifLoad3", D, LD, LDB % 3, "as VerifLoad2", unwind=24, switches=-1, timeout_s=1800)
 h("VerifLoadDup", D, LD, "1-2 files plus a second file for the key of the first (duplicate key), sizes/atimes/max_size symbolic", "duplicate files for one key: the newest that fits is kept, the other deleted, files that fit are not lost", unwind=24, switches=-1)
+h("VerifLoadDupCas", D, LD, "one AC file and two compressed CAS files of one key (logical size from the name, file lengths symbolic), access times symbolic and distinct", "duplicate compressed files of one key after an interrupted overwrite: one survives, accounting matches the directory", unwind=24, switches=-1)
 h("VerifLoadExtras", D, LD, "one file plus lost+found directories or .DS_Store files", "harmless extra directory entries are ignored", unwind=24, switches=-1)
 
 CS = ["zz_verif_cas.go"]
@@ -145,6 +146,8 @@ h("VerifConcCorruptReadPut", D, CC, CCB % 2 + "; one corrupt compressed CAS entr
 h("VerifConcPutPut", D, CC, CCB % 1 + "; empty cache, two uploads of one AC key, 1..2^30 bytes each, no space pressure", "two concurrent uploads of one key: one whole acknowledged version survives; C03/C04 at quiescence", unwind=24, switches=1, races=True)
 h("VerifConcPutPutDeep", D, CC, CCB % 2 + "; 0..1 prior entries, two uploads of one AC key, 1..2^30 bytes each, no space pressure", "as VerifConcPutPut", unwind=24, switches=2, timeout_s=1500, races=True)
 h("VerifConcReadOverwriteDeep", D, CC, CCB % 3 + "; one AC entry, reader with known or unknown size, overwriting upload, no space pressure; Mutex.Unlock is a preemption point as well", "as VerifConcReadOverwrite", unwind=24, switches=3, yield_unlock=True, timeout_s=1500, races=True)
+
+h("VerifTempfileCreate", "./utils/tempfile", ["zz_verif_tempfile.go"], "four generator states, legacy suffix or not, the first 0..3 candidate names already taken", "tempfile.Create returns a new, empty file and the random string that is part of exactly that file's name, also after name collisions", unwind=16)
 
 CF = "./config"
 CFF = ["zz_verif_config.go"]
@@ -179,19 +182,19 @@ P = {
          ["VerifReadUncompressed6", "VerifReadZstd6", "VerifGetCasRawAsZstd"], [CODEC, FSM], ["that a standard zstd decoder decodes the frames", "tables of more than 6 entries", "read offsets beyond the blob when the size is not given"]),
  "C03": (["VerifLRULemmas", "VerifLRUAdd3", "VerifLRUReserve3", "VerifLRUUnreserve", "VerifLRUGet", "VerifLRURemove", "VerifPutAC", "VerifGetAC", "VerifProxyGetAC"],
          ["VerifLRUAdd4", "VerifLRUReserve4", "VerifPutCasZstd", "VerifPutCasRaw", "VerifGetCasZstd", "VerifProxyGetCasRaw"], [FSM, CODEC, HASH], ["more live entries than the bound in one step", "sizes >= 2^61", "interleavings (C07)"]),
- "C04": (["VerifPutCasRaw", "VerifPutAC", "VerifGetAC", "VerifGetCasRaw", "VerifProxyGetAC", "VerifProxyGetCasZstd", "VerifLRUAdd3", "VerifLRURemove"],
+ "C04": (["VerifPutCasRaw", "VerifPutAC", "VerifGetAC", "VerifGetCasRaw", "VerifProxyGetAC", "VerifProxyGetCasZstd", "VerifLRUAdd3", "VerifLRURemove", "VerifTempfileCreate"],
          ["VerifPutCasZstd", "VerifPutCasZstdProxy", "VerifGetCasZstd", "VerifProxyGetCasRaw", "VerifProxyGetCasZstd"], [FSM, CODEC, HASH], ["files created by anything other than bazel-remote", "directory fsync"]),
  "C05": (["VerifLRUAdd3", "VerifLRUReserve3", "VerifLRUGet", "VerifGetAC", "VerifContains", "VerifFindMissing3"], ["VerifLRUAdd4", "VerifLRUReserve4", "VerifGetCasZstd", "VerifGetCasRaw"], [FSM], ["atime order after restart (C09)", "more live entries than the bound"]),
  "C06": (["VerifValidatedAC", "VerifValidatedACMixed", "VerifValidatedACDir", "VerifValidatedACProxy", "VerifGetActionResultMiss"], ["VerifValidatedAC2"], [FSM, "proto.Unmarshal by identity: stored bytes decode to the registered message"], ["real protobuf decoding", "races between the check and a concurrent eviction"]),
  "C07": (["VerifConcReadersCorrupt", "VerifConcReadOverwrite", "VerifConcReadOverwriteEvict", "VerifConcPutPut", "VerifConcCorruptReadPut", "VerifFindMissingProxy1", "VerifFindMissingBatchProxy", "VerifBytestreamWrite2"], ["VerifConcPutPutDeep", "VerifConcReadOverwriteDeep", "VerifValidatedACProxy"], [FSM, HASH, CODEC, "sequentially consistent interleaving of goroutines at the scheduling points (mutex acquisition, file-system step, channel operation, go statement); a blocked goroutine hands over round-robin"],
          ["data races on the abstract byte objects and inside the environment models (the happens-before obligations cover pointer loads/stores and map operations of repository and dependency code; weak-memory effects are not modelled)", "more than three goroutines per scenario, more preemptions than the bound, round-robin hand-over at blocking points", "evictions under space pressure and backend fetches racing with requests", "handlers above the disk layer other than ByteStream.Write and the FindMissing/validated-AC worker pool"]),
  "C08": (["VerifCrashPutCasRaw", "VerifCrashPutAC", "VerifCrashPutCasZstd", "VerifCrashPutCasZstdBad", "VerifCrashFetchCasZstd", "VerifCrashFetchCasRaw", "VerifCrashFetchAC"], ["VerifCrashOverwriteAC"], [FSM, HASH, CODEC], ["power loss, write reordering, fsync (process-kill semantics only)", "kill during start-up migration", "kill during eviction under space pressure; overwrites only for an AC key"]),
- "C09": (["VerifLoad2", "VerifLoadDup", "VerifLoadExtras", "VerifGetCasRawInZstdMode", "VerifGetCasZstdInRawMode"], ["VerifLoad3", "VerifGetCasRawInZstdModeAsZstd", "VerifGetCasZstdInRawModeAsZstd"], [FSM, "access times are the model's (distinct) integers"], ["real readdir order and atime semantics (relatime)", "legacy v0/v1 layouts (migration code is executed only on a current layout)", "more than 3 files", "schedules other than round-robin"]),
+ "C09": (["VerifLoad2", "VerifLoadDup", "VerifLoadDupCas", "VerifLoadExtras", "VerifGetCasRawInZstdMode", "VerifGetCasZstdInRawMode"], ["VerifLoad3", "VerifGetCasRawInZstdModeAsZstd", "VerifGetCasZstdInRawModeAsZstd"], [FSM, "access times are the model's (distinct) integers"], ["real readdir order and atime semantics (relatime)", "legacy v0/v1 layouts (migration code is executed only on a current layout)", "more than 3 files", "schedules other than round-robin"]),
  "C10": (["VerifFindMissing3", "VerifFindMissingProxy1", "VerifFindMissingBatch", "VerifFindMissingBatchProxy", "VerifFilterNonNil", "VerifContains", "VerifProxyGetCasZstd"], ["VerifFindMissing4", "VerifFindMissingProxy2", "VerifFindMissingBatch2"], ["the backend is an arbitrary per-hash verdict"], ["hundreds of digests with all states symbolic", "512 real workers", "more than 2 preemptive context switches"]),
  "C11": (["VerifValidateFilesDirs", "VerifValidateSymlinks", "VerifValidateNil", "VerifGetActionResultInline", "VerifGetActionResultMiss", "VerifUpdateActionResult", "VerifHTTPPutAC"], [], ["strings are ASCII (Go byte strings and SMT code-point strings agree there)"], ["field-by-field fidelity of proto.Marshal/Unmarshal and protojson", "non-ASCII strings"]),
  "C12": (["VerifProxyGetAC", "VerifProxyGetCasRaw", "VerifProxyGetCasZstd", "VerifProxyGetCasZstdShort", "VerifPutRawProxy"], ["VerifProxyGetCasZstdZ", "VerifPutCasZstdProxy", "VerifPutCasRawProxy"], [FSM, CODEC, HASH, "the backend is an arbitrary cache.Proxy stub"], ["minio/azure/gcs SDK calls", "real HTTP body semantics"]),
  "C13": (["VerifGrpcBasicAuth", "VerifGrpcBasicAuthAccepts", "VerifGrpcMTLS", "VerifHTTPAuthWiring", "VerifHTTPClientCert"], [], ["auth.CheckSecret is an arbitrary predicate", "strings are ASCII"], ["htpasswd hash checking, TLS handshake and certificate verification, LDAP", "whether grpc-go calls the interceptors for every method"]),
- "C14": (["VerifReadArbitrary2", "VerifReadZstd4", "VerifReadUncompressed4", "VerifGetCasZstd", "VerifGetSpecial", "VerifGetTree", "VerifBatchReadBlobs", "VerifBytestreamWrite2", "VerifFindMissingProxy1", "VerifValidatedACProxy", "VerifSpliceBlob"], ["VerifReadArbitrary3", "VerifGetCasZstdAsZstd", "VerifGetCasRawAsZstd", "VerifProxyGetCasZstd"], [FSM, CODEC], ["panics inside stubbed libraries", "resource exhaustion by volume"]),
+ "C14": (["VerifReadArbitrary2", "VerifReadZstd4", "VerifReadUncompressed4", "VerifGetCasZstd", "VerifGetSpecial", "VerifGetTree", "VerifBatchReadBlobs", "VerifBytestreamWrite2", "VerifFindMissingProxy1", "VerifValidatedACProxy", "VerifSpliceBlob", "VerifFetchBlob"], ["VerifReadArbitrary3", "VerifGetCasZstdAsZstd", "VerifGetCasRawAsZstd", "VerifProxyGetCasZstd"], [FSM, CODEC], ["panics inside stubbed libraries", "resource exhaustion by volume"]),
  "C15": (["VerifGrpcACKeyMangling", "VerifLookupKey", "VerifGetSpecial", "VerifHTTPGet", "VerifHTTPInstanceName"], [], ["sha256 is injective on byte strings (digest texts are fresh 64-hex strings with pairwise (content equal <=> digest equal))", "strings are ASCII", "disk.Cache replaced by a recording stub"], ["sha256 itself", "non-ASCII instance names", "isolation after eviction (C03/C04)", "the HTTP path-prefix clause: harnesses VerifParseRequestURL / VerifHTTPGrpcSameKey exist but no solver decides 'every URL /I/ac/h matches ^/?(.*/)?(ac/|cas/)([a-f0-9]{64})$ with instance I' within budget (cvc5 and z3 time out at 60 s even with |I| <= 6), so the URL grammar is not claimed"]),
  "C16": (["VerifBytestreamWrite2", "VerifBytestreamWriteZstd2", "VerifQueryWriteStatus"], ["VerifBytestreamWrite3"], ["disk.Cache replaced by a contract stub (Put consumes the reader and accepts exactly the declared bytes)"], ["grpc-go's own stream behaviour", "more than 3 messages", "more than 2 preemptive context switches"]),
  "C17": (["VerifLRUReserve3", "VerifLRURemove", "VerifLRUAdd3", "VerifPutAC", "VerifProxyGetAC"], ["VerifLRUReserve4", "VerifPutCasZstd", "VerifPutCasRaw", "VerifProxyGetCasRaw"], [FSM], ["real unlink latency"]),
